@@ -16,7 +16,7 @@ fn main() {
     let prop = Property {
         id: "C20",
         level: "exploration",
-        rule: "the same object bytes and configuration are given to senders through: in-memory buffer, Cursor, a real File, BufReader<File>, and a seekable ChunkedReader returning short reads on a schedule (1 byte, 7, 10, 4096, mixed, random sizes); boundary lattice of object sizes x 5 FEC schemes x block byte sizes below and above 8 KiB x transfer counts 1-3 x interleave 1-3; oracle (metamorphic): the object packet sequences are byte-identical to the buffer sender's (same virtual instants, same TOI), transfers 2..n equal transfer 1 apart from the close-object flag, and the chunked source saw seek(Start(0)) before every transfer; a case is one object x all sources, non-trivial when object packets were compared; distinct = object shape",
+        rule: "the same object bytes and configuration are given to senders through: in-memory buffer, Cursor, a real File, BufReader<File>, and a seekable ChunkedReader returning short reads on a schedule (1 byte, 7, 10, 4096, mixed, random sizes); boundary lattice of object sizes x 5 FEC schemes x block byte sizes below and above 8 KiB x transfer counts 1-3 x interleave 1-3; oracle (metamorphic): the object packet sequences are byte-identical to the buffer sender's (same virtual instants, same TOI), transfers 2..n equal transfer 1 apart from the close-object flag, and the chunked source saw seek(Start(0)) before every transfer; (huge_stream) No-Code stream objects of 2^32-1 .. 2^33+5 bytes whose content is a function of the offset (full and short reads): every packet of the transfer is checked against the reference partition and the content at its offset, all source symbols once, close-object flag last; a case is one object x all sources, non-trivial when object packets were compared; distinct = object shape",
         assumptions: vec![
             "sources that return errors or lie about their length are out of scope; stream sources cannot be combined with content encoding (flute refuses)".into(),
             "FDT packets are not compared (File order and MD5 are the same, but instance ids are irrelevant here)".into(),
@@ -28,7 +28,7 @@ fn main() {
     };
     run_property(prop, |ctx| {
         let n = ctx.tier.pick(20_000usize, 300_000);
-        vec![Gen::new("sources", n, move |ctx, i| {
+        let mut gens = vec![Gen::new("sources", n, move |ctx, i| {
             let mut rng = Rng::keyed(ctx.seed, "C20", 0, i as u64);
             let fec = *rng.pick(&ALL_FEC);
             let mut oti = gen::gen_oti(&mut rng, fec);
@@ -191,6 +191,114 @@ fn main() {
             }
             limit(&mut cr.violations, 2);
             cr
-        })]
+        })];
+        // ---- stream objects larger than 4 GiB (an in-memory twin is not possible: the expectation is the RFC slicing of
+        // a content that is a function of the offset). Every packet of the only transfer is looked at: (SBN, ESI) inside
+        // the reference partition and seen once, payload length, pattern at the expected offset (both ends of every
+        // payload, one payload in 32 completely), close-object flag on the last packet only, nothing missing.
+        let mut huge: Vec<(u64, usize)> = vec![
+            ((1u64 << 32) + 3 * 64 * 65528 + 12345, usize::MAX),
+            ((1u64 << 32) + 1, 1 << 20),
+            ((1u64 << 32) - 1, usize::MAX),
+        ];
+        if ctx.tier == Tier::Thorough {
+            huge.extend([((1u64 << 33) + 5, usize::MAX), ((1u64 << 32) + 64 * 65528, 65_000), (3 * (1u64 << 31) + 777, 7 << 20), ((1u64 << 32) + 65528, usize::MAX)]);
+        }
+        let nh = huge.len();
+        gens.push(Gen::new("huge_stream", nh, move |_ctx, i| {
+            let (l, chunk) = huge[i];
+            let mut cr = CaseResult::default();
+            let oti = OtiSpec::new(Fec::NoCode, 65528, 64, 0);
+            let e = oti.e as u64;
+            let part = ref_partition(oti.b as u128, l as u128, e as u128);
+            let wit = json!({"oti": oti.json(), "L": l, "read_chunk": if chunk == usize::MAX { 0 } else { chunk }});
+            let r = util::guarded(|| {
+                let mut sender = SenderSpec::new(oti.clone()).sender()?;
+                let desc = flute::sender::ObjectDesc::create_from_stream(
+                    Box::new(PatternReader { len: l, pos: 0, chunk }), "a/b", &url::Url::parse("file:///huge").unwrap(), false, Default::default(),
+                ).map_err(|e| format!("{:?}", e))?;
+                let toi = sender.add_object(0, desc).map_err(|e| format!("add_object: {:?}", e))?;
+                sender.publish(util::at(0)).map_err(|e| format!("publish: {:?}", e))?;
+                let mut seen = vec![false; part.t as usize];
+                let (mut n, mut dup, mut outside, mut badlen, mut badbytes, mut early_b, mut bytes) = (0u64, 0u64, 0u64, 0u64, 0u64, 0u64, 0u64);
+                let mut first_bad: Option<String> = None;
+                let mut last_had_b = false;
+                let mut t_ms = 0u64;
+                let mut idle = 0;
+                while idle < 3 && n <= part.t as u64 + 8 {
+                    match sender.read(util::at(t_ms)) {
+                        None => {
+                            idle += 1;
+                            t_ms += 100;
+                        }
+                        Some(b) => {
+                            idle = 0;
+                            let p = vh::wire::decode(&b).map_err(|e| format!("undecodable packet: {}", e))?;
+                            if p.lct.toi != toi {
+                                continue;
+                            }
+                            n += 1;
+                            if last_had_b {
+                                early_b += 1;
+                            }
+                            last_had_b = p.lct.b;
+                            let pl = &b[p.payload_off..];
+                            let (sbn, esi) = (p.sbn as u128, p.esi as u128);
+                            if sbn >= part.n || esi >= part.k(sbn) {
+                                outside += 1;
+                                first_bad.get_or_insert(format!("packet #{}: SBN {} ESI {} outside the partition ({} blocks)", n, sbn, esi, part.n));
+                                continue;
+                            }
+                            let idx = (part.first_symbol(sbn) + esi) as usize;
+                            if seen[idx] {
+                                dup += 1;
+                                first_bad.get_or_insert(format!("packet #{}: SBN {} ESI {} emitted twice", n, sbn, esi));
+                            }
+                            seen[idx] = true;
+                            let off = idx as u64 * e;
+                            let want_len = e.min(l - off) as usize;
+                            if pl.len() != want_len {
+                                badlen += 1;
+                                first_bad.get_or_insert(format!("packet #{}: SBN {} ESI {} carries {} bytes, the object has {} bytes for this symbol", n, sbn, esi, pl.len(), want_len));
+                                continue;
+                            }
+                            bytes += pl.len() as u64;
+                            let ok = if n % 32 == 0 || pl.len() < 64 {
+                                pattern_matches(off, pl)
+                            } else {
+                                pattern_matches(off, &pl[..32]) && pattern_matches(off + pl.len() as u64 - 32, &pl[pl.len() - 32..])
+                            };
+                            if !ok {
+                                badbytes += 1;
+                                first_bad.get_or_insert(format!("packet #{}: SBN {} ESI {}: payload is not the object's bytes at offset {}", n, sbn, esi, off));
+                            }
+                        }
+                    }
+                }
+                let missing = seen.iter().filter(|s| !**s).count() as u64;
+                Ok::<_, String>((n, dup, outside, badlen, badbytes, early_b, last_had_b, missing, bytes, first_bad))
+            });
+            match r {
+                Err(p) => cr.violations.push(Violation::new(if p.is_step_budget() { "hang" } else { "panic" }, format!("{} @ {}", p.msg, p.short_loc())).with("site", if p.is_step_budget() { p.step_site() } else { p.file() }).with("gen", "huge_stream").witness(wit)),
+                Ok(Err(e)) => cr.violations.push(Violation::new("huge_stream_refused", format!("a {}-byte stream object inside the No-Code limits of E=65528 B=64 could not be sent: {}", l, e)).witness(wit)),
+                Ok(Ok((n, dup, outside, badlen, badbytes, early_b, last_b, missing, bytes, first_bad))) => {
+                    if dup + outside + badlen + badbytes + early_b + missing > 0 || !last_b {
+                        cr.violations.push(Violation::new("huge_stream_differs", format!(
+                            "stream object of {} bytes ({} source symbols): {} packets, {} symbols missing, {} duplicated, {} outside the partition, {} with a wrong length, {} with wrong bytes, close-object flag {} ; first: {}",
+                            l, part.t, n, missing, dup, outside, badlen, badbytes, if early_b > 0 { "before the last packet" } else if last_b { "on the last packet" } else { "never set" }, first_bad.unwrap_or_default()))
+                            .with("above_4gib", l >= 1 << 32).with("missing", missing > 0).with("short_reads", chunk != usize::MAX).witness(wit));
+                    }
+                    cr.count("object_packets_compared", n);
+                    cr.count("huge_stream_bytes_checked_against_offsets", bytes);
+                    if n > 0 {
+                        cr.shape = Some(util::fnv(&format!("huge|{}|{}", l, chunk)));
+                    }
+                    cr.states = vec![util::fnv(&format!("huge|{}", l >= 1 << 32))];
+                    cr.sample = Some(json!({"L": l, "source_symbols": part.t.to_string(), "packets": n, "read_chunk": if chunk == usize::MAX { 0 } else { chunk }}));
+                }
+            }
+            cr
+        }));
+        gens
     });
 }
